@@ -91,3 +91,16 @@ Theorem C03_fallback_recursion :
   end.
 Proof. exact do_get_candidate_unfold. Qed.
 Print Assumptions C03_fallback_recursion.
+
+(* Project-name equivalence against its specification (the chain is read from utils.normalize_project_name on every
+   run): letter case and the separators '-', '_', '.' do not distinguish projects - norm distributes over
+   concatenation and gives the three separators, and both cases of every letter, one image. *)
+From RC Require Import proofs.NameSpecP lib.Name.
+Import ListNotations.
+Open Scope list_scope.
+Theorem C03_names_differing_in_separators_or_case_are_one_project :
+  (forall pre post s1 s2, In s1 ["-"%string; "_"%string; "."%string] -> In s2 ["-"%string; "_"%string; "."%string] ->
+     norm (pre ++ s1 ++ post) = norm (pre ++ s2 ++ post)) /\
+  norm "ABCDEFGHIJKLMNOPQRSTUVWXYZ" = norm "abcdefghijklmnopqrstuvwxyz".
+Proof. split; [exact norm_respelled_separator|exact (proj2 (proj2 norm_separators_and_case))]. Qed.
+Print Assumptions C03_names_differing_in_separators_or_case_are_one_project.
